@@ -1,12 +1,13 @@
 #!/bin/sh
-# usage: tools/seedtest.sh <seed dir> CHECK... — apply the seeded patch to /repo, run the checks (quick), undo. Prints one line per check.
+# usage: tools/seedtest.sh <seed dir> CHECK... — run checks (quick) against a scratch worktree of /repo with the
+# seeded patch applied (VERIF_REPO); /repo itself is not touched. Prints one line per check.
 s=$1; shift
-cd /repo || exit 2
-git diff --quiet || { echo "REPO DIRTY"; exit 2; }
-git apply /verif/$s/patch.diff || { echo "PATCH DOES NOT APPLY"; exit 2; }
+wt=/tmp/w/seedtest-$(basename $s)-$$
+git -C /repo worktree add -q --detach $wt HEAD || exit 2
+( cd $wt && git apply /verif/$s/patch.diff ) || { echo "PATCH DOES NOT APPLY"; git -C /repo worktree remove --force $wt; exit 2; }
 for c in "$@"; do
-  out=$(cd /verif && ./check $c 2>&1); rc=$?
-  sigs=$(for f in $(echo "$out" | grep -o 'replay=/verif/replays/[^ ]*' | cut -d= -f2); do python3 -c "import json,sys; print(json.load(open('$f'))['sig'])" 2>/dev/null; done | sort -u | tr '\n' ',')
+  out=$(cd /verif && VERIF_REPO=$wt ./check $c 2>&1); rc=$?
+  sigs=$(for f in $(echo "$out" | grep -o 'replay=/verif/[^ ]*' | cut -d= -f2); do python3 -c "import json,sys; print(json.load(open('$f'))['sig'])" 2>/dev/null; done | sort -u | tr '\n' ',')
   echo "$s $c rc=$rc sigs=$sigs $(echo "$out" | grep evaluations | tail -1 | sed 's/.*: //')"
 done
-git checkout -- . ; rm -f /verif/replays/*/*.json
+git -C /repo worktree remove --force $wt; rm -rf /verif/.work/scratch-replays/$(basename $wt)
